@@ -844,3 +844,125 @@ func ruleTaskQueueFIFO(e *Engine, r *Report) {
 		})
 	}
 }
+
+// ruleTransferTarget (C18, C03): leadership is only ever handed to a full
+// voting member: the leader records a transfer target only when it is found
+// in raft.remotes, and TimeoutNow goes to that recorded target only.
+func ruleTransferTarget(e *Engine, r *Report) {
+	tgt := r.needField("internal/raft", "raft", "leaderTransferTarget")
+	remotes := r.needField("internal/raft", "raft", "remotes")
+	sendTN := r.need(raftT + "sendTimeoutNowMessage")
+	if tgt == nil || remotes == nil || sendTN == nil {
+		return
+	}
+	n := 0
+	for _, w := range e.FieldWrites(tgt) {
+		if w.Kind == "init" || !e.IsLive(w.Fn) {
+			continue
+		}
+		if c, isC := w.Val.(*ssa.Const); isC && c.Value != nil && c.Value.ExactString() == "0" {
+			continue // cleared
+		}
+		n++
+		val := w.Val
+		inRemotes := func(v ssa.Value) bool {
+			ex, ok := v.(*ssa.Extract)
+			if !ok || ex.Index != 1 {
+				return false
+			}
+			lk, ok := ex.Tuple.(*ssa.Lookup)
+			return ok && lk.CommaOk && fieldV(remotes)(lk.X) && (lk.Index == val || sameExprV(val)(lk.Index))
+		}
+		r.guard("GD-transfer-target", "leaderTransferTarget set in "+fname(w.Fn), w.Instr,
+			reqBool("the target is a full voting member (found in raft.remotes)", inRemotes, true))
+	}
+	r.floor("GD-transfer-target", n, 1)
+	m := 0
+	for _, s := range e.CallerSites(sendTN) {
+		if !e.IsLive(s.Parent()) || len(s.Common().Args) < 2 {
+			continue
+		}
+		m++
+		a := s.Common().Args[1]
+		ok := fieldV(tgt)(a)
+		if !ok {
+			// the value just stored into the field in the same function
+			for _, w := range e.FieldWrites(tgt) {
+				if w.Fn == s.Parent() && (w.Val == a || sameExprV(w.Val)(a)) {
+					ok = true
+				}
+			}
+		}
+		if !ok {
+			// equal to the recorded target by a dominating comparison
+			ok, _ = e.guardedOnAllPaths(s.(ssa.Instruction), reqCmp("", "==", func(v ssa.Value) bool { return v == a || sameExprV(a)(v) }, fieldV(tgt)))
+		}
+		r.check(ok, "GD-transfer-target", "TimeoutNow in "+fname(s.Parent())+" goes to the recorded transfer target", e.ipos(s),
+			"only the vetted target is told to campaign at once", "TimeoutNow is sent to "+e.describeValue(a)+", not to the recorded (membership-checked) transfer target: a replica that is not a full voting member can be told to start an election that bypasses the leader lease")
+	}
+	r.floor("GD-transfer-target-sites", m, 2)
+}
+
+// ruleJobRegistered (C11, C08): a snapshot job handed to a worker is entered
+// in the in-progress table of its own kind (the tables the exclusion
+// predicates read), on every path of workerPool.start.
+func ruleJobRegistered(e *Engine, r *Report) {
+	start := r.need("(*dragonboat.workerPool).start")
+	if start == nil {
+		return
+	}
+	type kind struct {
+		flag, table string
+	}
+	kinds := []kind{{"Recover", "recovering"}, {"Save", "saving"}, {"Stream", "streaming"}}
+	writes := func(fn *ssa.Function, fld *types.Var) bool {
+		hit := false
+		e.forEachInstrRegion(fn, 1, func(in ssa.Instruction) {
+			if mu, ok := in.(*ssa.MapUpdate); ok && fieldV(fld)(mu.Map) {
+				hit = true
+			}
+		})
+		return hit
+	}
+	var all []func(ssa.Instruction) bool
+	n := 0
+	for _, k := range kinds {
+		fl := r.needField("internal/rsm", "Task", k.flag)
+		tb := r.needField("dragonboat", "workerPool", k.table)
+		if fl == nil || tb == nil {
+			continue
+		}
+		isReg := func(in ssa.Instruction) bool {
+			if mu, ok := in.(*ssa.MapUpdate); ok && fieldV(tb)(mu.Map) {
+				return true
+			}
+			c, ok := in.(*ssa.Call)
+			if !ok {
+				return false
+			}
+			sc := c.Call.StaticCallee()
+			return sc != nil && fnPkg(sc) == fnPkg(start) && writes(sc, tb)
+		}
+		all = append(all, isReg)
+		forEachInstr(start, func(in ssa.Instruction) {
+			if !isReg(in) {
+				return
+			}
+			n++
+			r.guard("TBL-job-registered", "job entered into workerPool."+k.table+" in "+fname(start), in,
+				reqBool("the job is a "+k.flag+" job", fieldV(fl), true))
+		})
+	}
+	anyReg := func(in ssa.Instruction) bool {
+		for _, f := range all {
+			if f(in) {
+				return true
+			}
+		}
+		return false
+	}
+	res := e.findPath(start, nil, isReturn, anyReg, nil)
+	r.check(!res.Found, "TBL-job-registered", "workerPool.start registers the job on every path", e.pos(start.Pos()),
+		"no job runs without being entered in an in-progress table", "a snapshot job can be started without being entered in saving/recovering/streaming: the exclusion predicates do not see it and a conflicting job of the same shard is scheduled concurrently", res.Trace(e)...)
+	r.floor("TBL-job-registered", n, 3)
+}
